@@ -103,6 +103,7 @@ struct MetaEngine : Engine {
 		static const int starts[] = {1, 3, 16, 64, 1024, 1024};
 		knobs["dstring_start"] = starts[kn.below(6)];
 		knobs["slab_objects"] = kn.chance(1, 3) ? 3 : 1024;
+		knobs["malloc_fill"] = kn.chance(1, 2) ? 1 : 0;      // fresh heap memory holds garbage that depends on the allocation history (core.h)
 		p["knobs"] = knobs;
 		static const char * clients[] = {"S", "D", "E", "E"};
 		p["client"] = clients[w.below(4)];
